@@ -607,3 +607,47 @@ func nrootOf(fen string) int {
 	}
 	return 0
 }
+
+func init() {
+	// verifh sched1 <fen> <go cmd> <point> <a> <b> <hold_ms> [cmd ...]   -- one schedule, for replays
+	commands["sched1"] = func(args []string) {
+		if len(args) < 6 {
+			fmt.Fprintln(os.Stderr, "usage: sched1 fen go point a b hold [cmds]")
+			os.Exit(2)
+		}
+		ph := phase{intArg(args, 2, 1), intArg(args, 3, 0), intArg(args, 4, 0)}
+		printSched(runSchedule(args[0], args[1], ph, args[6:], intArg(args, 5, 0)))
+	}
+	// verifh time1 <w|b> <go arguments>
+	commands["time1"] = func(args []string) {
+		devnull, _ := os.OpenFile(os.DevNull, os.O_WRONLY, 0)
+		realStdout := os.Stdout
+		os.Stdout = devnull
+		var ns int64
+		var depth int
+		seen := false
+		done := make(chan struct{}, 1)
+		engine.VerifDeadlineHook = func(start, end time.Time, d int) { ns, depth, seen = int64(end.Sub(start)), d, true }
+		engine.VerifSyncHook = func(point, a, b int) {
+			if point == engine.VsAfterBestmove {
+				done <- struct{}{}
+			}
+		}
+		engine.VerifResetSession()
+		if args[0] == "w" {
+			engine.ParseInputLine("position " + stalemateWhiteToMove)
+		} else {
+			engine.ParseInputLine("position " + stalemateBlackToMove)
+		}
+		res := guarded(func() string {
+			engine.ParseInputLine(strings.TrimSpace("go " + strings.Join(args[1:], " ")))
+			if !seen {
+				return "IGN"
+			}
+			<-done
+			return fmt.Sprintf("NS %d D %d", ns, depth)
+		})
+		os.Stdout = realStdout
+		fmt.Fprintln(out, res)
+	}
+}
